@@ -173,3 +173,23 @@ def gossip3(rng, frames, **over):
     for pc in p["cfg"]["peers"]:
         pc["delay"] = 0
     return p
+
+
+def lockwait(rng, frames, **over):
+    """Lockstep sessions (window 0) driven through advance_frame_with_wait_timeout: a stalled call polls for
+    up to wait_ms while packets arrive, and advances in the same call once the frame is confirmed."""
+    n = over.pop("npeers", None) or rng.choice([2, 2, 3])
+    p = general(rng, frames, npeers=n, window=0, spectators=over.pop("spectators", rng.choice([0, 0, 1])), **over)
+    w = rng.choice([1, 3, 8, 16, 16, 40])
+    p["wait_ms"] = w
+    p["cfg"]["wait_ms"] = w
+    p["cfg"]["waitapi"] = True
+    p["cfg"]["desync"] = 0
+    p["tick_ms"] = [16 for _ in p["tick_ms"]]
+    if rng.random() < 0.5:
+        p["tick_ms"][rng.randrange(len(p["tick_ms"]))] = rng.choice([14, 17, 20])
+    p["lat_lo"] = rng.choice([0, 1, 3, 10])
+    p["lat_hi"] = p["lat_lo"] + rng.choice([0, 3, 12, 30])
+    p["loss"] = rng.choice([0.0, 0.0, 0.05, 0.2])
+    p["p_pause"] = 0.0
+    return p
